@@ -132,7 +132,6 @@ def match_known(f: Finding, known: List[dict]) -> Optional[dict]:
         if (
             e.get("property") == f.prop
             and e.get("rule") == f.rule
-            and e.get("module") == f.module
             and e.get("function") == f.function
             and e.get("construct") == f.construct
         ):
